@@ -3,9 +3,9 @@
 package checks
 
 import (
-	"strings"
 	"context"
 	"fmt"
+	"strings"
 	"sync"
 	"testing"
 	"time"
